@@ -1,7 +1,7 @@
 (* C08Theorems.v — the property theorems of C08 and nothing else.  Each is closed by
    `exact <lemma>` and followed by Print Assumptions (audited by ./check on every run). *)
 From V.lib Require Import Base.
-From V.c08 Require Import C08Model C08Spec C08ReadProofs.
+From V.c08 Require Import C08Model C08Spec C08ReadProofs C08HeaderProofs C08CopyProofs.
 
 (* ReadData / CopyData (repaired text, `end > dataLen`): for every file, every mdat box lying in it
    (8- or 16-byte header), every range that starts at a payload byte and ends at or before the end of
@@ -52,3 +52,83 @@ Theorem C08_read_equal_pinned_interior :
   = Ok (sub file (Z.to_N start) (Z.to_N size)).
 Proof. exact read_equal_pinned_interior. Qed.
 Print Assumptions C08_read_equal_pinned_interior.
+
+(* Decoding one mdat box (any canonical 8- or 16-byte header announcing payloadLen bytes, box inside the
+   file) with DecodeBox and with DecodeBoxLazyMdat succeeds in both modes, yields exactly the two boxes the
+   other theorems speak about (same StartPos and LargeSize; Data = the payload slice vs lazyDataSize =
+   payloadLen) and leaves the reader at the same position: the end of the box. *)
+Theorem C08_decode_equal :
+  forall file zeof startPos large payloadLen orc,
+  box_in_file file startPos large payloadLen = true ->
+  header_at file startPos large payloadLen = true ->
+  exists o1 o2,
+    decode_box_mdat false file zeof startPos (mkRS startPos orc)
+    = RfOk (mdat_mem file startPos large payloadLen, mkRS (startPos + hdr_len large + payloadLen) o1)
+    /\ decode_box_mdat true file zeof startPos (mkRS startPos orc)
+    = RfOk (mdat_lazy startPos large payloadLen, mkRS (startPos + hdr_len large + payloadLen) o2).
+Proof. exact decode_equal. Qed.
+Print Assumptions C08_decode_equal.
+
+(* Encode of the lazily decoded box writes exactly the header bytes of the original box, header ++
+   payload = the original box = Encode of the in-memory box, and Size() is the same in both modes. *)
+Theorem C08_header_plus_payload :
+  forall file startPos large payloadLen,
+  box_in_file file startPos large payloadLen = true ->
+  header_at file startPos large payloadLen = true ->
+  mdat_encode (mdat_lazy startPos large payloadLen) = Ok (sub file startPos (hdr_len large))
+  /\ sub file startPos (hdr_len large) ++ sub file (startPos + hdr_len large) payloadLen
+     = sub file startPos (hdr_len large + payloadLen)
+  /\ mdat_encode (mdat_mem file startPos large payloadLen) = Ok (sub file startPos (hdr_len large + payloadLen))
+  /\ mdat_size (mdat_lazy startPos large payloadLen) = (hdr_len large + payloadLen, large)
+  /\ mdat_size (mdat_mem file startPos large payloadLen) = (hdr_len large + payloadLen, large).
+Proof. exact header_plus_payload. Qed.
+Print Assumptions C08_header_plus_payload.
+
+Example C08_header_hyps :
+  header_at [0;0;0;12;109;100;97;116;1;2;3;4] 0 false 4 = true /\
+  header_at [0;0;0;1;109;100;97;116;0;0;0;0;0;0;0;18;1;2] 0 true 2 = true /\
+  box_in_file [0;0;0;1;109;100;97;116;0;0;0;0;0;0;0;18;1;2] 0 true 2 = true.
+Proof. vm_compute. repeat split; reflexivity. Qed.
+
+(* File.CopySampleData (repaired text, `for nrLeft > 0`) after GetContainingChunks returned `chunks`:
+   for every file, mdat box, table view (stsz sizes / uniform size, stco or co64 offsets), every run of
+   consecutive chunks whose first chunk contains sample a and last chunk contains sample b
+   (1 <= a <= b < 2^32-1), all of them lying inside the mdat payload, EVERY work buffer (any length incl. 0
+   and 1, any initial contents), every short-read oracle and both empty-read behaviours of the reader:
+   the bytes written in in-memory mode and in lazy mode are both exactly the concatenation, sample by sample,
+   of the bytes of samples a..b. *)
+Theorem C08_copy_samples :
+  forall file startPos large payloadLen tb chunks a b ws zeof orc,
+  box_in_file file startPos large payloadLen = true ->
+  chunks_cover a b chunks = true ->
+  chunks_in_payload tb startPos large payloadLen chunks = true ->
+  copy_sample_data true file zeof (mdat_mem file startPos large payloadLen) (Some (mkRS 0 orc)) tb chunks a b ws
+  = Ok (expected_samples file tb chunks a b)
+  /\ copy_sample_data true file zeof (mdat_lazy startPos large payloadLen) (Some (mkRS 0 orc)) tb chunks a b ws
+  = Ok (expected_samples file tb chunks a b).
+Proof. exact copy_samples. Qed.
+Print Assumptions C08_copy_samples.
+
+(* satisfiable, non-trivial: samples 2..3 of a 3-sample track span a chunk boundary *)
+Example C08_copy_samples_hyps :
+  let file := [0;0;0;14;109;100;97;116;1;2;3;4;5;6] in
+  let tb := mkStbl [1;2;3] 0 [8;11] in
+  let chunks := [mkChunk 1 1 2; mkChunk 2 3 1] in
+  box_in_file file 0 false 6 = true /\ chunks_cover 2 3 chunks = true /\
+  chunks_in_payload tb 0 false 6 chunks = true /\ expected_samples file tb chunks 2 3 = [2;3;4;5;6] /\
+  copy_sample_data true file true (mdat_lazy 0 false 6) (Some (mkRS 0 [1;1])) tb chunks 2 3 [0;0] = Ok [2;3;4;5;6].
+Proof. vm_compute. repeat split; reflexivity. Qed.
+
+(* the pinned text (`for {`: always one Read) violates the statement: a zero-size sample located at the
+   very end of the file, read through a reader that reports io.EOF on an empty read at the end
+   (bytes.Reader), fails in lazy work-buffer mode and succeeds in memory *)
+Theorem C08_zero_size_at_eof_refuted :
+  exists file startPos large payloadLen tb chunks a b ws orc,
+    box_in_file file startPos large payloadLen = true /\
+    chunks_cover a b chunks = true /\
+    chunks_in_payload tb startPos large payloadLen chunks = true /\
+    copy_sample_data false file true (mdat_lazy startPos large payloadLen) (Some (mkRS 0 orc)) tb chunks a b ws = Err /\
+    copy_sample_data false file true (mdat_mem file startPos large payloadLen) (Some (mkRS 0 orc)) tb chunks a b ws
+    = Ok (expected_samples file tb chunks a b).
+Proof. exact zero_size_at_eof_refuted. Qed.
+Print Assumptions C08_zero_size_at_eof_refuted.
